@@ -251,7 +251,19 @@ func (s *Syncer[H]) sync(ctx context.Context) {
 			"attempted_height", subjHead.Height(),
 		)
 		log.Warn("PLEASE REPORT THIS AS A BUG")
-		return // should never happen, but just in case
+		// happens when a head learned via gossip and via Head() concurrently was stored through one
+		// path and got pending through the other afterwards: drop it, or it stays pending forever
+		for {
+			headersRange, ok := s.pending.First()
+			if !ok {
+				break
+			}
+			headersRange.Remove(storeHead.Height())
+			if !headersRange.Empty() {
+				break
+			}
+		}
+		return
 	}
 
 	from := storeHead.Height() + 1
